@@ -16,6 +16,7 @@ from __future__ import annotations
 import ast
 import itertools
 import time
+import zlib
 import typing
 
 import z3
@@ -67,7 +68,7 @@ def union_lattice(tier):
     if tier == "thorough":
         trip_pool = pool
     for t in itertools.permutations(trip_pool, 3):
-        if tier == "quick" and hash(t) % 4 != 0 and not ("None" in t):
+        if tier == "quick" and zlib.crc32(repr(t).encode()) % 4 != 0 and not ("None" in t):
             continue
         out.append(t)
     if tier == "thorough":
